@@ -29,7 +29,13 @@
          `call` used as a value or without arguments; `call` applied to a query;
      U3  a string-typed library parameter receives an integer, or a string that came out of a library
          function with an untyped result (Go reflection conversion rules, C23's subject);
-     U4  evaluation needs more than Fuel applications (divergence). *)
+     U4  evaluation needs more than Fuel applications (divergence).
+
+   One more class is only DIAGNOSED (flag pe; the expected result stays asserted): the VM keeps the
+   parameter slots in one array that a partial application snapshots when it is created and swaps in (and
+   afterwards restores) around its final call.  A read is flagged pe when its binding is the latest
+   activation of its lambda literal but not the one that array would hold.  The flag is used for nothing but
+   naming the failure class (known-finding key) of a mismatch. *)
 EXTENDS Integers, Sequences, FiniteSets, TLC
 
 Fuel == 400
@@ -67,16 +73,18 @@ Undef       == [t |-> "undef"]
 IsFn(v)  == v.t \in {"native", "clo", "par"}
 IsBad(v) == v.t \in {"err", "undef"}
 
-Min(S) == CHOOSE x \in S : \A y \in S : x <= y
+MinOf(S) == CHOOSE x \in S : \A y \in S : x <= y
 Last(s) == s[Len(s)]
-Range(s) == {s[i] : i \in DOMAIN s}
+RangeOf(s) == {s[i] : i \in DOMAIN s}
 
 \* interpreter state threaded through evaluation in the VM's order (arguments left to right, then the function)
-St0 == [n |-> 0, latest |-> <<>>, u |-> FALSE, fuel |-> Fuel]
+St0 == [n |-> 0, latest |-> <<>>, slots |-> <<>>, u |-> FALSE, pe |-> FALSE, fuel |-> Fuel]
 R(v, st) == [v |-> v, st |-> st]
 LamKey(c) == [p |-> c.p, b |-> c.b]       \* a lambda literal (structurally equal literals are identified: conservative)
 LatestAct(st, key) == LET I == {i \in DOMAIN st.latest : st.latest[i][1] = key} IN
-                      IF I = {} THEN 0 ELSE st.latest[Min(I)][2]
+                      IF I = {} THEN 0 ELSE st.latest[MinOf(I)][2]
+SlotAct(st, key) == LET I == {i \in DOMAIN st.slots : st.slots[i][1] = key} IN
+                    IF I = {} THEN 0 ELSE st.slots[MinOf(I)][2]
 
 FeatureTypes == {"point", "path", "area", "relation"}
 
@@ -131,15 +139,17 @@ Apply(c, vs, st) ==
            n  == NumArgs(c)
            m  == Len(vs)
        IN IF m > n THEN R(Err, s1)                                            \* too many arguments
-          ELSE IF m < n THEN R([t |-> "par", f |-> c, bound |-> vs], s1)      \* partial application
+          ELSE IF m < n THEN R([t |-> "par", f |-> c, bound |-> vs, snap |-> s1.slots], s1)   \* partial application
           ELSE CASE c.t = "native" -> NativeCall(c.n, vs, s1)
                  [] c.t = "clo" ->
                       LET act == s1.n + 1
                           key == LamKey(c)
-                          s2  == [s1 EXCEPT !.n = act, !.latest = <<<<key, act>>>> \o @]
+                          s2  == [s1 EXCEPT !.n = act, !.latest = <<<<key, act>>>> \o @, !.slots = <<<<key, act>>>> \o @]
                           fr  == [i \in 1..m |-> [n |-> c.p[i], v |-> vs[i], l |-> key, a |-> act]]
                       IN Eval(c.b, fr \o c.env, s2)                            \* lexical scope, inner shadows outer
-                 [] c.t = "par" -> Apply(c.f, vs \o c.bound, s1)               \* NEW arguments first, bound ones trail
+                 [] c.t = "par" ->                                             \* NEW arguments first, bound ones trail
+                      LET r == Apply(c.f, vs \o c.bound, [s1 EXCEPT !.slots = c.snap])
+                      IN R(r.v, [r.st EXCEPT !.slots = s1.slots])
 
 Bound(env, n) == \E i \in DOMAIN env : env[i].n = n
 
@@ -167,8 +177,9 @@ Eval(e, env, st) ==
     [] e.k = "q"   -> R(QV(e.q), st)
     [] e.k = "sym" ->
          LET I == {i \in DOMAIN env : env[i].n = e.n} IN
-         IF I # {} THEN LET en == env[Min(I)] IN
-                        R(en.v, IF LatestAct(st, en.l) = en.a THEN st ELSE [st EXCEPT !.u = TRUE])   \* U1
+         IF I # {} THEN LET en == env[MinOf(I)] IN
+                        R(en.v, IF LatestAct(st, en.l) # en.a THEN [st EXCEPT !.u = TRUE]            \* U1
+                                ELSE IF SlotAct(st, en.l) # en.a THEN [st EXCEPT !.pe = TRUE] ELSE st)
          ELSE IF IsNative(e.n) THEN R(NativeV(e.n), st)
          ELSE IF e.n \in Variadic THEN R(Undef, st)
          ELSE R(Err, st)                                                       \* undefined symbol
@@ -180,14 +191,14 @@ RECURSIVE FreeVars(_), SubExprs(_)
 \* symbols not bound by an enclosing lambda and not naming a library function
 FreeVars(e) ==
   CASE e.k = "sym"  -> IF Global(e.n) THEN {} ELSE {e.n}
-    [] e.k = "lam"  -> FreeVars(e.b) \ Range(e.p)
+    [] e.k = "lam"  -> FreeVars(e.b) \ RangeOf(e.p)
     [] e.k = "call" -> FreeVars(e.f) \cup UNION {FreeVars(e.a[i]) : i \in DOMAIN e.a}
     [] OTHER -> {}
 \* symbols that are free occurrences INCLUDING library names (to see captured library names)
 RECURSIVE FreeSyms(_)
 FreeSyms(e) ==
   CASE e.k = "sym"  -> {e.n}
-    [] e.k = "lam"  -> FreeSyms(e.b) \ Range(e.p)
+    [] e.k = "lam"  -> FreeSyms(e.b) \ RangeOf(e.p)
     [] e.k = "call" -> FreeSyms(e.f) \cup UNION {FreeSyms(e.a[i]) : i \in DOMAIN e.a}
     [] OTHER -> {}
 SubExprs(e) ==
@@ -199,7 +210,7 @@ RECURSIVE StaticUndef(_, _)
 \* U2, decided before evaluation (the compiler's treatment of these is not part of the language)
 StaticUndef(e, bound) ==
   CASE e.k = "sym"  -> e.n \in Variadic /\ e.n \notin bound
-    [] e.k = "lam"  -> (\E i \in DOMAIN e.p : Global(e.p[i])) \/ StaticUndef(e.b, bound \cup Range(e.p))
+    [] e.k = "lam"  -> (\E i \in DOMAIN e.p : Global(e.p[i])) \/ StaticUndef(e.b, bound \cup RangeOf(e.p))
     [] e.k = "call" -> \/ (e.f.k = "sym" /\ e.f.n \in bound)
                        \/ (e.f.k = "sym" /\ e.f.n \in Variadic /\ e.a = <<>>)
                        \/ (e.f.k # "sym" /\ StaticUndef(e.f, bound))
@@ -210,9 +221,9 @@ StaticErr(e) == \/ FreeVars(e) # {}
                 \/ \E s \in SubExprs(e) : s.k = "call" /\ s.f.k \in {"lit", "str", "q"}
 
 \* the meaning of a whole program: [v, u]  (u: not asserted)
-Run(p) == IF StaticUndef(p, {}) THEN [v |-> Undef, u |-> TRUE]
-          ELSE IF StaticErr(p) THEN [v |-> Err, u |-> FALSE]
-          ELSE LET r == Eval(p, <<>>, St0) IN [v |-> r.v, u |-> r.st.u \/ r.v.t = "undef"]
+Run(p) == IF StaticUndef(p, {}) THEN [v |-> Undef, u |-> TRUE, pe |-> FALSE]
+          ELSE IF StaticErr(p) THEN [v |-> Err, u |-> FALSE, pe |-> FALSE]
+          ELSE LET r == Eval(p, <<>>, St0) IN [v |-> r.v, u |-> r.st.u \/ r.v.t = "undef", pe |-> r.st.pe]
 
 \* ---------------------------------------------------------------- queries: denotation over a small universe
 QKeys == {"k", "j"}
@@ -238,19 +249,24 @@ ObsV(v) == CASE v.t = "int"  -> [t |-> "int", v |-> v.v]
 Probes == <<Lit(7), Lit(3), Lit(2)>>
 ProbeOf(p, n) == Call(Sym("call"), <<p>> \o SubSeq(Probes, 1, n))
 ProbeDepth == 3
-RECURSIVE ObsP(_, _)
-\* observation of a program; a function result is applied (by a second program, `call p 7 3 ..`) to see what it does
+RECURSIVE ObsP(_, _), Has(_, _)
+\* observation of a program: [o |-> observation, pe |-> diagnosed class]; a function result is applied
+\* (by a second program, `call p 7 3 ..`) to see what it does
 ObsP(p, d) ==
   LET r == Run(p) IN
-  IF r.u THEN [t |-> "undef"]
+  IF r.u THEN [o |-> [t |-> "undef"], pe |-> FALSE]
   ELSE IF IsFn(r.v) THEN
          LET n == NumArgs(r.v) IN
-         IF d = 0 \/ n > Len(Probes) THEN [t |-> "fn", n |-> n, r |-> [t |-> "deep"]]
-         ELSE [t |-> "fn", n |-> n, r |-> ObsP(ProbeOf(p, n), d - 1)]
-  ELSE ObsV(r.v)
-RECURSIVE HasUndef(_)
-HasUndef(o) == o.t = "undef" \/ (o.t = "fn" /\ "r" \in DOMAIN o /\ HasUndef(o.r))
-Obs(p) == LET o == ObsP(p, ProbeDepth) IN IF HasUndef(o) THEN [t |-> "undef"] ELSE o
+         IF d = 0 \/ n > Len(Probes) THEN [o |-> [t |-> "fn", n |-> n, r |-> [t |-> "deep"]], pe |-> r.pe]
+         ELSE LET sub == ObsP(ProbeOf(p, n), d - 1) IN
+              [o |-> [t |-> "fn", n |-> n, r |-> sub.o], pe |-> r.pe \/ sub.pe]
+  ELSE [o |-> ObsV(r.v), pe |-> r.pe]
+Has(o, t) == o.t = t \/ (o.t = "fn" /\ "r" \in DOMAIN o /\ Has(o.r, t))
+\* what is asserted of a program (o; "undef": nothing) and the class a mismatch on it belongs to ("pe" or "-")
+ObsC(p) == LET x == ObsP(p, ProbeDepth) IN
+           IF Has(x.o, "undef") THEN [o |-> [t |-> "undef"], cls |-> "-"]
+           ELSE [o |-> x.o, cls |-> IF x.pe THEN "pe" ELSE "-"]
+Obs(p) == ObsC(p).o
 
 \* ---------------------------------------------------------------- self tests (values fixed in DESIGN.md A.3)
 SelfT(p) == Run(p).v
